@@ -4,6 +4,7 @@
    of the `work` command interpreter), tied to the code by `./check C15`.
    [jwt] is the JWT library as an oracle on non-empty token strings; the theorems hold for every
    oracle and for nodes with and without a configured verification key. *)
+From Coq Require Import ZArith.
 From Receptor Require Import Model.Sig Proofs.Sig.
 Open Scope N_scope.
 
@@ -81,6 +82,25 @@ Theorem C15_unknown_name_creates_nothing :
   exists e, exec_submit_name jwt key_ok r st c tok newid name false signwork = (st, RError e, []).
 Proof. exact unknown_name_creates_nothing. Qed.
 Print Assumptions C15_unknown_name_creates_nothing.
+
+(* The signing side, end to end.  A remote submission (startRemoteUnit at the submitting node,
+   createSignature with its signing key and `tokenexpiration`) to a VERIFYING work type of the
+   target is let through there iff it was signed, with the key the target verifies with, and has
+   not expired. *)
+Theorem C15_remote_submit_to_verifying_type :
+  forall sk (expiration elapsed : Z) signwork vk (r : registry) target name,
+  reg_lookup name r = Some true -> name <> s_remote ->
+  (remote_submit_decision sk expiration elapsed signwork vk r target name = Some Allow <->
+   signwork = true /\ sk = Some vk /\ (elapsed < expiration)%Z).
+Proof. exact remote_submit_to_verifying_type. Qed.
+Print Assumptions C15_remote_submit_to_verifying_type.
+
+Theorem C15_remote_submit_to_plain_type :
+  forall sk (expiration elapsed : Z) signwork vk (r : registry) target name,
+  reg_lookup name r = Some false -> name <> s_remote ->
+  (remote_submit_decision sk expiration elapsed signwork vk r target name = Some Allow <-> signwork = false).
+Proof. exact remote_submit_to_plain_type. Qed.
+Print Assumptions C15_remote_submit_to_plain_type.
 
 (* non-vacuity: allowed and refused instances of the hypotheses on a concrete node *)
 Example C15_nonvacuous :
